@@ -10,6 +10,7 @@ use e57::E57Reader;
 use explore::Ctx;
 
 const P: &str = "C16";
+const ERR_KINDS: [std::io::ErrorKind; 4] = [std::io::ErrorKind::Other, std::io::ErrorKind::Interrupted, std::io::ErrorKind::UnexpectedEof, std::io::ErrorKind::WouldBlock];
 
 fn writer_program(ctx: &Ctx) -> Program {
     let kind = ctx.pick("program-kind", 2);
@@ -85,10 +86,17 @@ pub fn writer_faults(ctx: &Ctx) {
     let good = h.snapshot();
     let nops = h.with(|s| s.ops) as usize;
     let k = ctx.pick("fault-at-device-op", nops);
-    ctx.describe(|| format!("{}: {} device operations, injected error at operation {k}", describe(&p), nops));
+    // error kind of the injected fault: a generic error, "interrupted" (which std's write_all,
+    // read_exact and io::copy answer by calling again), "unexpected end of file", "would block"
+    let ek = ctx.pick("error-kind", ERR_KINDS.len());
+    let errkind = ERR_KINDS[ek];
+    ctx.describe(|| format!("{}: {} device operations, injected {errkind:?} error at operation {k}", describe(&p), nops));
     let res = guarded(|| {
         let dev = Dev::empty();
-        dev.with(|s| s.fault_at = Some(k as u64));
+        dev.with(|s| {
+            s.fault_at = Some(k as u64);
+            s.fault_errkind = errkind;
+        });
         let h = dev.handle();
         let (err, fin, fired_before_drop) = run_with_device(dev, &h, &p, Chunk::Full, None);
         let kind = h.with(|s| s.fault_kind).unwrap_or("?");
@@ -103,6 +111,20 @@ pub fn writer_faults(ctx: &Ctx) {
         }
     };
     ctx.count(format!("faulted-op-kind:{kind}"));
+    // an interrupted operation may be repeated: then everything may succeed, with the right file
+    if errkind == std::io::ErrorKind::Interrupted && err.is_none() && fin && bytes == good {
+        ctx.count("interrupted:retried-successfully");
+        ctx.observe(&bytes);
+        ctx.nontrivial();
+        return;
+    }
+    if errkind == std::io::ErrorKind::Interrupted && err.is_none() {
+        ctx.violation(
+            format!("{P}/interrupted-operation-corrupts-file/{kind}"),
+            format!("device {kind} reported ErrorKind::Interrupted once at operation {k}; every call including finalize returned Ok, but the device content differs from the fault-free file ({} vs {} bytes): {}", bytes.len(), good.len(), describe(&p)),
+        );
+        return;
+    }
     if fired_before_drop > 0 && err.is_none() {
         ctx.violation(
             format!("{P}/fault-swallowed/{kind}"),
@@ -227,10 +249,14 @@ pub fn reader_faults(ctx: &Ctx) {
     };
     let nops = h.with(|s| s.ops) as usize;
     let k = ctx.pick("fault-at-device-op", nops);
-    ctx.describe(|| format!("reader program on file {fk}: {nops} device operations, injected error at operation {k}"));
+    let errkind = ERR_KINDS[ctx.pick("error-kind", ERR_KINDS.len())];
+    ctx.describe(|| format!("reader program on file {fk}: {nops} device operations, injected {errkind:?} error at operation {k}"));
     let res = guarded(|| {
         let dev = Dev::new(bytes.clone());
-        dev.with(|s| s.fault_at = Some(k as u64));
+        dev.with(|s| {
+            s.fault_at = Some(k as u64);
+            s.fault_errkind = errkind;
+        });
         let h = dev.handle();
         let r = reader_run(dev);
         (r, h.with(|s| s.faults_fired), h.with(|s| s.fault_kind).unwrap_or("?"))
@@ -238,7 +264,17 @@ pub fn reader_faults(ctx: &Ctx) {
     ctx.ops(good.len() as u64);
     match res {
         Err(pi) => ctx.violation(format!("{P}/panic/{}", pi.class()), format!("reader panicked at {} ({}) with a device error injected at operation {k} (file {fk})", pi.loc, pi.msg)),
-        Ok((Ok(_), fired, kind)) => {
+        Ok((Ok(got), fired, kind)) => {
+            if errkind == std::io::ErrorKind::Interrupted && fired > 0 {
+                // repeated after the interruption: fine if the results are the fault-free ones
+                if got == good {
+                    ctx.count("interrupted:retried-successfully");
+                    ctx.nontrivial();
+                } else {
+                    ctx.violation(format!("{P}/interrupted-operation-changes-results/{kind}"), format!("device {kind} reported ErrorKind::Interrupted once at operation {k}; every reader call returned Ok but the results differ from the fault-free run (file {fk})"));
+                }
+                return;
+            }
             if fired > 0 {
                 ctx.violation(format!("{P}/fault-swallowed/{kind}"), format!("device {kind} error at operation {k} fired but every reader call returned Ok (file {fk})"));
             } else {
